@@ -324,7 +324,15 @@ def rule_3(ctx):
             if isinstance(v, Ref):
                 models[v.ref] = model(v.ref)
     want_ref = infix.get('-').ref if isinstance(infix.get('-'), Ref) else None
-    it = Interp(ctx.a, am, {'self': Rec(ttype=infix_s, tvalue='-', tsubtype='math', left=A, right=B), 'context': Rec()},
+    from . import corelemma
+
+    def opnode(ttype, tsubtype, left, right):
+        mk = Interp(ctx.a, am, {}, inline_pkg=True)
+        nd = corelemma.build_node(mk, 'OperatorNode', Rec(cls='pkg:tokenizer:f_token', tvalue='-', ttype=ttype, tsubtype=tsubtype))
+        nd.set('left', left)
+        nd.set('right', right)
+        return nd
+    it = Interp(ctx.a, am, {'self': opnode(infix_s, 'math', A, B), 'context': Rec()},
                 call_models=models, self_class='pkg:ast_nodes:OperatorNode', scope_fn=ev)
     it.run(ev.body)
     ctx.expect(seen.get(want_ref) == ('value of A', 'value of B'), ev, 'infix eval: f(left value, right value) keyed by the operator text',
@@ -332,7 +340,7 @@ def rule_3(ctx):
                'with (value of the left operand, value of the right operand)')
     seen.clear()
     want_ref = prefix.get('-').ref if isinstance(prefix.get('-'), Ref) else None
-    it = Interp(ctx.a, am, {'self': Rec(ttype=prefix_s, tvalue='-', tsubtype='', left=None, right=B), 'context': Rec()},
+    it = Interp(ctx.a, am, {'self': opnode(prefix_s, '', None, B), 'context': Rec()},
                 call_models=models, self_class='pkg:ast_nodes:OperatorNode', scope_fn=ev)
     it.run(ev.body)
     ctx.expect(seen.get(want_ref) == ('value of B',), ev, 'prefix eval: f(right value)',
@@ -763,6 +771,15 @@ def _local_consts(ctx, fn, m):
     return env
 
 
+def rule_8(ctx):
+    """The value of an operator tree is a function of the operand values of THIS evaluation (for all assignments of the
+    referenced cells): nothing evaluation-dependent is kept on operator/operand nodes, every operand is evaluated."""
+    from . import corelemma
+    n = corelemma.rule_node_state(ctx, only=('OperatorNode', 'OperandNode', 'ASTNode'))
+    n += corelemma.rule_operator_nodes(ctx)
+    ctx.floor(10, 'operator-node obligations')
+
+
 RULES = [
     ('C01.1', 'precedence relation of the operator table', rule_1),
     ('C01.2', 'pop decision table of the shunting-yard operator loop', rule_2),
@@ -771,4 +788,5 @@ RULES = [
     ('C01.5', 'infix -> prefix/noop switch decision tables', rule_5),
     ('C01.6', 'percent is an operator', rule_6),
     ('C01.7', 'scientific-notation guard', rule_7),
+    ('C01.8', 'operator nodes compute from the operand values of the current evaluation', rule_8),
 ]
